@@ -55,9 +55,15 @@ FTEXT_HOSTILE = FTEXT_CLEAN + ["it's", "q\"q", "{", "}", "{x}", "back\\slash", "
 class ExprGen:
     """Random expression trees.  ``stats`` is updated with what was generated (for evidence)."""
 
-    def __init__(self, rng: random.Random, *, clean: bool) -> None:
+    def __init__(self, rng: random.Random, *, clean: bool, fixed: frozenset = frozenset()) -> None:
+        """``fixed``: ids of listed findings whose status is ``fixed``: their triggers re-enter ``D_clean``."""
         self.rng = rng
         self.clean = clean
+        self.fixed = fixed
+
+    def excluded(self, finding: str) -> bool:
+        """Is the trigger of ``finding`` kept out of the domain being generated?"""
+        return self.clean and finding not in self.fixed
 
     # -- leaves -------------------------------------------------------------------------------------------------
     def name(self) -> ast.Name:
@@ -97,12 +103,14 @@ class ExprGen:
             kinds += ["BinOp", "UnaryOp", "BoolOp", "Compare", "BinOp", "Compare"]
         if level == 0:
             kinds += ["IfExp", "Lambda"]
+        if not self.excluded("C03-dictcomp-space"):
+            kinds += ["DictComp"]
         if not self.clean:
-            kinds += ["DictComp", "GeneratorExp", "Yield", "YieldFrom", "IfExp", "Lambda", "BoolOp", "UnaryOp"]
+            kinds += ["GeneratorExp", "Yield", "YieldFrom", "IfExp", "Lambda", "BoolOp", "UnaryOp"]
             if r.random() < 0.02:
                 kinds = ["Await"]
         kind = r.choice(kinds)
-        if kind == "Tuple" and self.clean and leak:
+        if kind == "Tuple" and leak and self.excluded("C03-subscript-tuple-leak"):
             kind = "List"
         return getattr(self, "g_" + kind)(d - 1, leak)
 
@@ -168,7 +176,7 @@ class ExprGen:
     def g_Dict(self, d: int, leak: bool) -> ast.expr:
         keys, values = [], []
         for _ in range(self.rng.randint(0, 3)):
-            if not self.clean and self.rng.random() < 0.2:
+            if not self.excluded("C03-dict-unpack") and self.rng.random() < 0.2:
                 keys.append(None)
                 values.append(self.sub(d, 2, leak))
             else:
@@ -203,13 +211,13 @@ class ExprGen:
         k = r.random()
         if k < 0.45:
             sl: ast.expr = self.sub(d, 0, True)
-            if self.clean and isinstance(sl, ast.Tuple) and not sl.elts:
+            if isinstance(sl, ast.Tuple) and not sl.elts and self.excluded("C03-empty-tuple-index"):
                 sl = self.name()
         elif k < 0.65:
             sl = self.slice_(d, True)
         else:
             elts: list[ast.expr] = []
-            for _ in range(r.randint(1 if self.clean else 0, 3)):
+            for _ in range(r.randint(1 if self.excluded("C03-empty-tuple-index") else 0, 3)):
                 j = r.random()
                 elts.append(self.slice_(d, False) if j < 0.25 else self.starred(d, False) if j < 0.35 else self.sub(d, 0, False))
             sl = ast.Tuple(elts, ast.Load())
@@ -266,7 +274,7 @@ class ExprGen:
         rest = names[cuts[1]: cuts[2]][1:]
         kwonly = rest + names[cuts[2]: cuts[3]]
         kwarg = names[cuts[3]:][:1]
-        if self.clean:
+        if self.excluded("C03-lambda-markers"):
             if var and kwonly:
                 args, kwonly = args + kwonly, []
             if posonly and not args:
